@@ -21,6 +21,8 @@ fn devices() -> Vec<String> {
         "x".repeat(4000),
         "/dev/{options}".into(),
         "{mdt}".into(),
+        "/mnt/mdt0\r\n.snap".into(),
+        "a\rb\tc".into(),
     ]
 }
 
